@@ -21,7 +21,7 @@ LEVEL_TEXT = 'Held on random states x bounds configurations incl. tool-power ran
 RULE = ("random histories over the state-tracked API under random bounds configurations (incl. "
         "tool-power ranges with min > 0, feed/tool-number/temperature/axes bounds); at 3-6 checkpoints "
         "per history the builder is forked and tool_off / power_off / coolant_off / emergency_halt(msg, "
-        "reset) run on separate forks; distinct = (tool API, tool active, coolant mode, bounds class "
+        "reset) run on separate forks (messages: plain, empty, blank, multi-line); distinct = (tool API, tool active, coolant mode, bounds class "
         "{none, includes 0, excludes 0}, operation)")
 ASSUMPTIONS = [
     "copy.deepcopy(builder) yields an independent builder in the same state",
@@ -59,6 +59,17 @@ def setup_bounds(rng, g):
     return cls, b
 
 
+def _carries(comment, pieces):
+    """every non-blank line of the message appears in the comment, in order"""
+    at = 0
+    for p in pieces:
+        at = comment.find(p, at)
+        if at < 0:
+            return False
+        at += len(p)
+    return True
+
+
 def run_case(ctx, col, case):
     rng = ctx.rng(case)
     s = Session(dp=rng.choice([2, 5]), comment=rng.choice([";", ";", "(", "#"]))
@@ -92,7 +103,12 @@ def run_case(ctx, col, case):
             rec = fork._writers[0]
             n0 = len(rec.payloads)
             reset = rng.random() < 0.5
-            msg = rng.choice(["door open", "limit switch", "E-STOP 42"])
+            # the message may be empty, blank or span lines (str(exc) of an argument-less exception,
+            # a traceback): the sequence must still be complete and the whole text carried
+            msg = rng.choice(["door open", "limit switch", "E-STOP 42", "", " ", "limit switch\nZ axis",
+                              "Traceback:\r\n  File x\r\nTimeoutError", "\nleading break", "x"])
+            pieces = [p.strip() for p in msg.splitlines() if p.strip()]
+            col.count("halt_message_class:" + ("empty" if not pieces else "multi-line" if len(pieces) > 1 else "plain"))
             col.count("shutdown_ops_checked")
             if st.is_tool_active:
                 col.count("checked_with_tool_running")
@@ -143,7 +159,7 @@ def run_case(ctx, col, case):
                 for ln in lines:
                     if ln.words:
                         kinds.append(ln.code())
-                    elif ln.comment is not None and msg in ln.comment:
+                    elif ln.comment is not None and _carries(ln.comment, pieces):
                         kinds.append("MSG")
                 if kinds != ["M5", "M9", "MSG", want[-1]]:
                     bad("emergency-sequence-out-of-order", emitted=[ln.raw for ln in lines], sequence=kinds)
